@@ -251,6 +251,55 @@ static_assert(!std::is_trivially_copy_constructible_v<Trc<8>> && !std::is_trivia
               !std::is_trivially_destructible_v<Trc<8>> && std::is_trivially_copy_assignable_v<Trc<8>> &&
               std::is_trivially_move_assignable_v<Trc<8>>);
 
+// Tra<N>: ASSIGNMENT is user-provided, construction and destruction are trivial: relocation may copy its bytes, but an
+// assignment or a swap of stored objects has to go through its operators (they are counted; a move leaves 0 behind).
+template <std::size_t N>
+struct Tra
+{
+    static_assert(N >= 4);
+    unsigned char b[N];
+    void set(std::uint32_t id)
+    {
+        std::memcpy(b, &id, 4);
+        for (std::size_t i = 4; i < N; ++i) b[i] = static_cast<unsigned char>(0xC0 + i);
+    }
+    std::uint64_t id() const
+    {
+        std::uint32_t v;
+        std::memcpy(&v, b, 4);
+        return v;
+    }
+    Tra() = default;
+    explicit Tra(std::uint64_t id) { set(static_cast<std::uint32_t>(id)); }
+    Tra(const Tra&) = default;
+    Tra(Tra&&) = default;
+    ~Tra() = default;
+    Tra& operator=(const Tra& o)
+    {
+        ++Life::get().assigns;
+        const auto v = static_cast<std::uint32_t>(o.id());
+        set(v);
+        return *this;
+    }
+    Tra& operator=(Tra&& o) noexcept
+    {
+        ++Life::get().assigns;
+        const auto v = static_cast<std::uint32_t>(o.id());
+        if (this != &o) o.set(0);
+        set(v);
+        return *this;
+    }
+    friend bool operator==(const Tra& x, const Tra& y) { return x.id() == y.id(); }
+    friend bool operator<(const Tra& x, const Tra& y) { return x.id() < y.id(); }
+};
+static_assert(std::is_trivially_copy_constructible_v<Tra<8>> && std::is_trivially_move_constructible_v<Tra<8>> &&
+              std::is_trivially_destructible_v<Tra<8>> && !std::is_trivially_copy_assignable_v<Tra<8>> &&
+              !std::is_trivially_move_assignable_v<Tra<8>>);
+template <class T>
+inline constexpr bool IS_TRA = false;
+template <std::size_t N>
+inline constexpr bool IS_TRA<Tra<N>> = true;
+
 template <class T>
 std::uint64_t id_of(const T& t)
 {
